@@ -436,6 +436,10 @@ def metadata_edits(md, toplevel=False):
         m = cp(md); m['note'] = 'some text'; out.append(('note=text', m))
     else:
         m = cp(md); m['note'] = ''; out.append(('note=empty', m))        # an empty string as a value
+    if 'nbdime-conflicts' not in md and EXTRA[0]:
+        # what one branch looks like after an earlier conflicted merge was committed as it was (the other branch never had the record)
+        m = cp(md); m['nbdime-conflicts'] = {'local_diff': [{'op': 'add', 'key': 'old', 'value': 1}], 'remote_diff': [{'op': 'add', 'key': 'old', 'value': 2}]}
+        out.append(('conflicts-added', m))
     if 'nbdime-conflicts' in md:
         m = cp(md); del m['nbdime-conflicts']; out.append(('conflicts-unset', m))
         m = cp(md); m['nbdime-conflicts'] = {'local_diff': [], 'remote_diff': []}; out.append(('conflicts-emptied', m))
@@ -487,6 +491,9 @@ def attachment_edits(att):
     a = cp(att); a[k] = {'image/png': PNG2}; out.append(('replace:2', a))
     a = cp(att); a[k] = {'image/png': PNG3}; out.append(('replace:3', a))
     a = cp(att); a['renamed.png'] = a.pop(k); out.append(('rename', a))
+    if EXTRA[0] and not k.startswith(('LOCAL_', 'REMOTE_')) and 'LOCAL_' + k not in att:
+        # a leftover of an earlier conflicted merge that only this branch carries
+        a = cp(att); a['LOCAL_' + k] = {'image/png': PNG3}; out.append(('add-leftover', a))
     mk = sorted(att[k])[0]
     if isinstance(att[k][mk], str):
         # the payload changes under the mime key as it is stored (which need not be lower case)
@@ -669,7 +676,8 @@ FOCUS = {
     'source': ('src@0:repl0:a', 'src@0:repl0:b', 'src@0:repl2:a', 'src@0:repl2:b', 'src@0:del1', 'src@0:ins1', 'src@0:ins1:b', 'src@0:tweak1', 'src@0:tweak1:b', 'src@0:comment1',
                'src@0:append-unterminated', 'src@0:terminate'),
     'meta': ('cellmeta@2:tags+extra', 'cellmeta@2:tags+other', 'cellmeta@2:collapsed-flip', 'cellmeta@2:custom=a1', 'cellmeta@2:custom=a2', 'cellmeta@2:level-2',
-             'nbmeta:kspec-name', 'nbmeta:kspec-name:b', 'nbmeta:kspec-lang', 'nbmeta:kspec-id', 'nbmeta:tags=new', 'nbmeta:x=lists'),
+             'nbmeta:kspec-name', 'nbmeta:kspec-name:b', 'nbmeta:kspec-lang', 'nbmeta:kspec-id', 'nbmeta:tags=new', 'nbmeta:x=lists', 'nbmeta:conflicts-added',
+             'cellmeta@2:conflicts-added'),
     'cellmix0': ('ec@0:7', 'out@0:oec1', 'src@0:tweak1', 'src@0:repl2:a', 'cell-delete@0', 'rerun@0', 'cellmeta@0:custom=a1', 'cell-retype@0:raw', 'id@0:renamed',
                  'out@0:data1:plain-tweak', 'out@0:stream0:tweak', 'out@0:stream0:first'),
     'cellmix2': ('cellmeta@2:collapsed-flip', 'src@2:tweak0', 'src@2:repl0:a', 'ec@2:7', 'cell-delete@2', 'cellmeta@2:tags+extra', 'out@2:append:Ostream',
@@ -679,7 +687,7 @@ FOCUS = {
     'upgrade': ('upgrade45', 'cell-insert:C3@3', 'cell-insert:M3@3', 'cell-insert:C1@3', 'cell-insert:C2@3', 'minor:3', 'src@0:tweak1', 'cell-delete@1', 'cell-retype@2:raw'),
     'prevmeta': ('nbmeta:conflicts-unset', 'nbmeta:conflicts-emptied', 'nbmeta:kspec-name', 'nbmeta:kspec-name:b', 'nbmeta:tags=new', 'nbmeta:tags=alt',
                  'cellmeta@0:conflicts-unset', 'cellmeta@0:conflicts-emptied', 'cellmeta@0:tags=new', 'cellmeta@0:tags=alt', 'cellmeta@0:custom=a1', 'cellmeta@0:custom=a2'),
-    'attachments': ('att@1:add:b1', 'att@1:add:b2', 'att@1:replace:2', 'att@1:replace:3', 'att@1:rename', 'att@1:add-mime', 'src@1:repl1:a', 'src@1:repl1:b'),
+    'attachments': ('att@1:add:b1', 'att@1:add:b2', 'att@1:replace:2', 'att@1:replace:3', 'att@1:rename', 'att@1:add-mime', 'src@1:repl1:a', 'src@1:repl1:b', 'att@1:add-leftover'),
 }
 
 
